@@ -256,6 +256,34 @@ def placement_strategy(tier):
     })
 
 
+def multi_ring_cases(tier, seed):
+    for i in range(6 if tier == "quick" else 40):
+        n = 2 + (i + seed) % 5
+        nodes = [NAME_POOL[(i * 3 + j * 7) % len(NAME_POOL)] for j in range(n)]
+        yield {"nodes": list(dict.fromkeys(nodes)), "kseed": seed * 100 + i, "seeds": [0, 1337, 0, 2 ** 32 - 1, 1, 0][: 3 + i % 4]}
+
+
+def check_multi_ring(case):
+    """rings with different seeds (and a HashClient's own ring) used alternately in one process: each must follow the
+    rule for ITS seed - no state shared between instances"""
+    nodes = case["nodes"]
+    keys = corpus(case["kseed"], 150)
+    rings = [(sd, _build(nodes, "murmur", sd)) for sd in case["seeds"]]
+    hc = HashClient([])
+    for nd in nodes:
+        hc.hasher.add_node(nd)
+    rings.append((0, hc.hasher))
+    for rnd in range(2):
+        for k in keys:
+            for sd, ring in (rings if rnd == 0 else rings[::-1]):
+                want = refhash.place(nodes, k, refhash.murmur3, sd)
+                got = ring.get_node(k)
+                if want is not None and got != want:
+                    raise Violation(["shared-state-between-rings"], "ring with seed %d places %r on %r, the rule for that seed gives %r (rings with seeds %r alive in the same process) [nodes=%r]"
+                                    % (sd, k, got, want, case["seeds"], nodes))
+    return True, ["multi-ring", "n=%d" % len(nodes)]
+
+
 def spread_cases(tier, seed):
     reps = 6 if tier == "quick" else 40
     for i in range(reps):
@@ -363,6 +391,7 @@ def check_xproc(case):
 PARTS = [
     Part("placement", "hyp", check_placement, strategy=placement_strategy,
          examples={"quick": 50, "thorough": 500}, shards={"quick": 8, "thorough": 16}),
+    Part("rings-side-by-side", "enum", check_multi_ring, cases=multi_ring_cases, shards={"quick": 2, "thorough": 8}),
     Part("spread", "enum", check_placement, cases=spread_cases, shards={"quick": 3, "thorough": 16}),
     Part("spellings", "enum", check_spelling, cases=spelling_cases, shards={"quick": 2, "thorough": 4}, exhaustive=True),
     Part("cross-process", "enum", check_xproc, cases=xproc_cases, shards={"quick": 2, "thorough": 4}),
